@@ -42,6 +42,14 @@ structure EnvOK : Prop where
   /-- the frequency estimate does not overflow on the editor path (C08: Δt = 0 there) -/
   estimate_ok : ∀ t f m, ∃ v, env.estimate t f m = .ok v
 
+/-- well-formedness of a symbol selector (the tables of `symbols.dat` as loaded, plus the open category):
+    a leaf category has a non-empty name, a table category points to an existing table (after the `as u8`
+    cast), an open category is an existing table -/
+structure SymWF (y : SymSel) : Prop where
+  cur : ∀ c, y.cursor = some c → c < y.table.length
+  leaf : ∀ name, (name, none) ∈ y.category → name ≠ []
+  idx : ∀ name i, (name, some i) ∈ y.category → i % 256 < y.table.length
+
 /-- **invariant of the shared state** -/
 structure ShInv (sh : Shared D L) : Prop where
   good : G sh.dict
@@ -52,21 +60,24 @@ structure ShInv (sh : Shared D L) : Prop where
   /-- prefix lookup is only configured together with the fuzzy engine (the C API sets both at once) -/
   coupled : sh.options.lookupStrategy = .fuzzyPartialPrefix → engStrategy sh.engine = .fuzzyPartialPrefix
   perPage : 0 < sh.options.candidatesPerPage
+  /-- the symbol tables the editor was created with are well formed -/
+  symOK : SymWF sh.symSel
 
 variable {env G}
 
 /-- the invariant only reads `dict`, `com`, `engine` and two options -/
 theorem ShInv.congr {sh sh' : Shared D L} (h : ShInv env G sh) (hd : sh'.dict = sh.dict) (hc : sh'.com = sh.com)
     (he : sh'.engine = sh.engine) (hl : sh'.options.lookupStrategy = sh.options.lookupStrategy)
-    (hp : sh'.options.candidatesPerPage = sh.options.candidatesPerPage) : ShInv env G sh' := by
-  refine ⟨hd ▸ h.good, hc ▸ h.ced, ?_, ?_, hp ▸ h.perPage⟩
+    (hp : sh'.options.candidatesPerPage = sh.options.candidatesPerPage)
+    (hy : sh'.symSel = sh.symSel) : ShInv env G sh' := by
+  refine ⟨hd ▸ h.good, hc ▸ h.ced, ?_, ?_, hp ▸ h.perPage, hy ▸ h.symOK⟩
   · intro c hcm; rw [hd, he, hl]; rw [hc] at hcm; exact h.word c hcm
   · rw [hl, he]; exact h.coupled
 
 /-- a new composition editor whose symbols were all there before -/
 theorem ShInv.setCom {sh : Shared D L} (h : ShInv env G sh) {c : CompEditor} (hp : CedPost sh.com none c) :
     ShInv env G { sh with com := c } := by
-  refine ⟨h.good, hp.1, ?_, h.coupled, h.perPage⟩
+  refine ⟨h.good, hp.1, ?_, h.coupled, h.perPage, h.symOK⟩
   intro x hx
   rcases hp.2 _ hx with hm | hm
   · exact h.word x hm
@@ -77,7 +88,7 @@ theorem ShInv.setComIns {sh : Shared D L} (h : ShInv env G sh) {c : CompEditor} 
     (hx : ∀ k, x = .syl k → env.hasPhrase sh.dict [k] (engStrategy sh.engine) = true ∧
       env.hasPhrase sh.dict [k] sh.options.lookupStrategy = true) :
     ShInv env G { sh with com := c } := by
-  refine ⟨h.good, hp.1, ?_, h.coupled, h.perPage⟩
+  refine ⟨h.good, hp.1, ?_, h.coupled, h.perPage, h.symOK⟩
   intro y hy
   rcases hp.2 _ hy with hm | hm
   · exact h.word y hm
@@ -92,7 +103,7 @@ theorem ShInv.setComSame {sh : Shared D L} (h : ShInv env G sh) {c : CompEditor}
 theorem ShInv.setDict {sh : Shared D L} (h : ShInv env G sh) {d : D} (hg : G d)
     (hm : ∀ c s, env.hasPhrase sh.dict [c] s = true → env.hasPhrase d [c] s = true) :
     ShInv env G { sh with dict := d } :=
-  ⟨hg, h.ced, fun c hc => ⟨hm _ _ (h.word c hc).1, hm _ _ (h.word c hc).2⟩, h.coupled, h.perPage⟩
+  ⟨hg, h.ced, fun c hc => ⟨hm _ _ (h.word c hc).1, hm _ _ (h.word c hc).2⟩, h.coupled, h.perPage, h.symOK⟩
 
 /-- what dictionary-only methods keep -/
 structure Keeps (env : Env D L) (sh sh' : Shared D L) : Prop where
@@ -166,7 +177,7 @@ theorem learnPhrase_ok (hE : EnvOK env G) {sh : Shared D L} (h : ShInv env G sh)
             (((env.lookupAll sh.dict k .standard).find? (fun q => q.text == p)).map (·.freq)).getD 0 } v sh.time,
           dirty := sh.dirty + 1 } := fun v =>
         (h.setDict (hE.update_good _ _ _ _ _ h.good hlen) (fun c s hh => hE.update_mono _ _ _ _ _ c s hh)).congr
-          rfl rfl rfl rfl rfl
+          rfl rfl rfl rfl rfl rfl
       split
       · exact .ok ⟨hup _, ⟨rfl, rfl, rfl, rfl, rfl, fun c s hh => hE.update_mono _ _ _ _ _ c s hh⟩⟩
       · next q hq => exact absurd hq (estimate_ne_panic hE _ _ _ _)
@@ -216,7 +227,7 @@ theorem learnInRangeQuiet_ok (hE : EnvOK env G) {sh : Shared D L} (h : ShInv env
             rw [sylPrefix_length_of_all (by simpa using hall)]
             simp only [List.length_take, List.length_drop, hdl]
           refine .ok ⟨?_, ⟨rfl, rfl, rfl, rfl, rfl, hE.add_mono _ _ _ _ hadd⟩⟩
-          exact (h.setDict (hE.add_good _ _ _ _ h.good hadd hlen) (hE.add_mono _ _ _ _ hadd)).congr rfl rfl rfl rfl rfl
+          exact (h.setDict (hE.add_good _ _ _ _ h.good hadd hlen) (hE.add_mono _ _ _ _ hadd)).congr rfl rfl rfl rfl rfl rfl
         · exact .ok ⟨h, Keeps.refl _⟩
 
 theorem learnInRangeNotify_ok (hE : EnvOK env G) {sh : Shared D L} (h : ShInv env G sh) (a b : Nat) (hab : a ≤ b) :
@@ -225,8 +236,8 @@ theorem learnInRangeNotify_ok (hE : EnvOK env G) {sh : Shared D L} (h : ShInv en
   unfold Shared.learnInRangeNotify
   rw [hq]
   cases res with
-  | ok phrase => exact .ok ⟨hi.congr rfl rfl rfl rfl rfl, ⟨hk.com, hk.engine, hk.options, hk.symSel, hk.syl, hk.mono⟩⟩
-  | error msg => exact .ok ⟨hi.congr rfl rfl rfl rfl rfl, ⟨hk.com, hk.engine, hk.options, hk.symSel, hk.syl, hk.mono⟩⟩
+  | ok phrase => exact .ok ⟨hi.congr rfl rfl rfl rfl rfl rfl, ⟨hk.com, hk.engine, hk.options, hk.symSel, hk.syl, hk.mono⟩⟩
+  | error msg => exact .ok ⟨hi.congr rfl rfl rfl rfl rfl rfl, ⟨hk.com, hk.engine, hk.options, hk.symSel, hk.syl, hk.mono⟩⟩
 
 /-! ## `auto_learn` -/
 
@@ -293,9 +304,9 @@ theorem commit_ok (hE : EnvOK env G) {sh : Shared D L} (h : ShInv env G sh) :
   have key : ∀ sh1 : Shared D L, ShInv env G sh1 → Keeps env sh sh1 →
       ShInv env G { sh1 with commitBuf := ivs.flatMap (·.text), com := sh1.com.clear, nth := 0, last := .commit } := by
     intro sh1 hi1 hk1
-    refine ⟨hi1.good, ced_clear hi1.ced, ?_, hi1.coupled, hi1.perPage⟩
+    refine ⟨hi1.good, ced_clear hi1.ced, ?_, hi1.coupled, hi1.perPage, hi1.symOK⟩
     intro c hc; simp [CompEditor.clear, Composition.clear] at hc
-  have h0 : ShInv env G { sh with commitBuf := [] } := h.congr rfl rfl rfl rfl rfl
+  have h0 : ShInv env G { sh with commitBuf := [] } := h.congr rfl rfl rfl rfl rfl rfl
   have hlearn : OkAnd (fun sh1 => ShInv env G sh1 ∧ Keeps env sh sh1)
       (if !sh.options.disableAutoLearnPhrase then Shared.autoLearn env { sh with commitBuf := [] } ivs
        else .ok { sh with commitBuf := [] }) := by
@@ -346,6 +357,6 @@ theorem tryAutoCommit_ok (hE : EnvOK env G) {sh : Shared D L} (h : ShInv env G s
     dsimp only
     obtain ⟨com, hq3, hp⟩ := ced_removeFront h.ced remove hr
     rw [hq3]
-    exact .ok ⟨(h.setCom hp).congr rfl rfl rfl rfl rfl, rfl, rfl, rfl, rfl, rfl, rfl⟩
+    exact .ok ⟨(h.setCom hp).congr rfl rfl rfl rfl rfl rfl, rfl, rfl, rfl, rfl, rfl, rfl⟩
 
 end Chewing.C01
